@@ -14,6 +14,7 @@ import os
 
 import numpy as np
 
+from vf import bigcases
 from vf import core
 from vf import callforms
 from vf import errorpaths
@@ -294,3 +295,4 @@ def run(ctx):
     ctx.run_cases(case_cached_mirror, [{"axis": ax, "damaged": d_, "how": h_, "session": list(ss)} for ax in ("x", "y") for d_ in ("P", "M") for h_ in ("zero", "half") for ss in itertools.product("PM", repeat=4) if len(set(ss)) == 2],
                   sub="mirror symmetry through a cache with a damaged entry")
     ctx.run_cases(case_interface_similarity, [{"scale": s, "halo": h, "footprint": fp} for s, h, fp in itertools.product((0.5, 8.0), (None, 20.0, 0.0), (True, False))], sub="interface-similarity")
+    bigcases.run(ctx, "C07")
